@@ -61,7 +61,7 @@ theorem getattr_rf' (s : H) (l : LRef) : pyGetattr s l (s.l l).rf = .ok (l, true
   rw [h]; simp
 
 /-- a `for` loop in `Except` whose body never exits early and never raises is a fold -/
-theorem forIn_yield_ok {α β : Type} (l : List α) (init : β) (body : α → β → Except PyErr (ForInStep β)) (g : β → α → β)
+theorem forIn_yield_fold {α β : Type} (l : List α) (init : β) (body : α → β → Except PyErr (ForInStep β)) (g : β → α → β)
     (h : ∀ x ∈ l, ∀ b, body x b = .ok (.yield (g b x))) : forIn l init body = .ok (l.foldl g init) := by
   induction l generalizing init with
   | nil => rfl
@@ -85,7 +85,7 @@ theorem neighbours_tie {env : ModelEnv} (hE : EqId env) (s : H) (a : ARef) (f : 
     model_get_associated_assets_by_field_name s env a f = .ok (MS.neighbours (abs s) a f) := by
   unfold model_get_associated_assets_by_field_name
   simp only [bind, Except.bind, pure, Except.pure]
-  rw [forIn_yield_ok _ _ _ (fun acc l => acc ++ nbStep s a f l)]
+  rw [forIn_yield_fold _ _ _ (fun acc l => acc ++ nbStep s a f l)]
   · rw [foldl_append_flatMap, List.nil_append]
     unfold MS.neighbours
     show Except.ok ((s.a a).associations.flatMap _) = Except.ok ((s.a a).associations.flatMap _)
@@ -384,16 +384,32 @@ theorem add_asset_tie (s : H) (env : ModelEnv) (hfresh : s.afresh ∉ s.assets)
       · subst hx; simp [absAsset, attrInt, attrStr]
       · simp [hx]
 
+/-- the heap after a successful `add_asset` -/
+theorem add_asset_ok_form (h h' : H) (env : ModelEnv) (a : ARef) (id : Option Int) (dup : Bool) (hnew : a ∉ h.assets)
+    (hfuel : h.asset_names.length + 1 ≤ env.whileFuel) (hok : model_add_asset h env a id dup = .ok h') :
+    h' = addAssetH h a (id.getD h.next_id) (chosenNameH h a (id.getD h.next_id) env.whileFuel) := by
+  rw [add_asset_run h env a id dup hnew hfuel] at hok
+  by_cases c1 : h.asset_ids.contains (id.getD h.next_id) = true
+  · rw [if_pos c1] at hok; cases hok
+  · rw [if_neg c1] at hok
+    by_cases c2 : (match (h.a a).name with | some n => h.asset_names.contains n && !dup | none => false) = true
+    · rw [if_pos c2] at hok; cases hok
+    · rw [if_neg c2] at hok
+      injection hok with hok
+      exact hok.symm
+
 /-- `add_asset` does not touch attackers, tuple objects or the allocation counters -/
 theorem add_asset_tframe (h h' : H) (env : ModelEnv) (a : ARef) (id : Option Int) (dup : Bool) (hnew : a ∉ h.assets)
     (hfuel : h.asset_names.length + 1 ≤ env.whileFuel) (hok : model_add_asset h env a id dup = .ok h') :
     TFrame h h' := by
   rw [add_asset_run h env a id dup hnew hfuel] at hok
-  split at hok
-  · cases hok
-  · split at hok
-    · cases hok
-    · injection hok with hok
+  by_cases c1 : h.asset_ids.contains (id.getD h.next_id) = true
+  · rw [if_pos c1] at hok; cases hok
+  · rw [if_neg c1] at hok
+    by_cases c2 : (match (h.a a).name with | some n => h.asset_names.contains n && !dup | none => false) = true
+    · rw [if_pos c2] at hok; cases hok
+    · rw [if_neg c2] at hok
+      injection hok with hok
       subst hok
       exact ⟨rfl, rfl, rfl, rfl, rfl, rfl, rfl⟩
 
